@@ -65,7 +65,10 @@ THEOREMS = [
     "Klong.C17.pinned_new_key_can_vanish_strict",
 ]
 
-KEYS = ["a", "b", "c", "p/a", "p/b", "q/r/a", "q/r/b", "q/c"]     # prefix-free
+KEYS = ["a", "b", "c", "p/a", "p/b", "q/r/a", "q/r/b", "q/c",       # prefix-free
+        "logs/app", "logs\\app"]   # look-alikes: on POSIX `logs\app` is a flat file of that name in the root
+# keys differing only in separator style, for the key -> path injectivity check (pure, no file system)
+LOOKALIKES = ["/a", "a//b", "a/b", "p//a", "p\\a", "/p/a", "q/r//a", "q\\r\\a", "logs//app", "/logs/app", "./b", "b/", "a/../b", ".."]
 COMP = {}                                                          # path component -> number
 
 
@@ -492,6 +495,27 @@ def gen_value(rng):
     return "x" * rng.choice([40, 70])
 
 
+def expand(v):
+    """large values travel as {"repeat": s, "n": n} in cases/replays"""
+    if isinstance(v, dict) and "repeat" in v:
+        return v["repeat"] * v["n"]
+    return v
+
+
+def _short(x, n=120):
+    t = x if isinstance(x, str) else repr(x)
+    return t if len(t) <= n else f"{t[:60]}...({len(t)} chars)...{t[-20:]}"
+
+
+def gen_big_value(rng):
+    """a string whose PICKLE length sits at / just past a buffer or window boundary"""
+    from klongpy.db.helpers import serialize_obj
+    over = len(serialize_obj("x" * 1000)) - 1000
+    unit = rng.choice([4096, 8192, 65536, 65536, 65536, 131072, 196608])
+    extra = rng.choice([0, 1, 1, 5, 100, 300, rng.randrange(1, 4096), rng.randrange(1, 4096), 4095, 4096, 8191, 20000])
+    return {"repeat": "x", "n": max(300, unit + extra - over)}
+
+
 def read_store(root, keys):
     """what a fresh REAL KeyValueStorage reads for every key: (kind, canonical value | exception name, raw bytes)"""
     from klongpy.db.sys_fn_kvs import KeyValueStorage
@@ -673,6 +697,65 @@ def py_images(ops, limit=20000):
 
 # --------------------------------------------------------------------------- one sequence
 
+def _apply_eff(c, e):
+    if e[0] == "trunc":
+        return b""
+    _, off, d = e
+    return c[:off] + b"\0" * (off - len(c)) + d + c[off + len(d):]
+
+
+def py_sample_images(ops, rng, n):
+    """crash images drawn from the same space as py_images without enumerating it (for traces with large
+    writes, whose byte-prefix choices alone run into the 10^5s): the two extremes (every unsynced effect lost /
+    kept), 'only the last pending write of every file lost / cut', and n random draws"""
+    st = py_state(ops)
+    opt = [d for d in st["vdirs"] if d not in st["ddirs"]]
+    paths = list(st["vfiles"]) + [f for f in st["alt"] if f not in st["vfiles"]]
+    out = []
+    for mode in ["lost", "kept", "drop-last", "cut-last"] + ["rand"] * n:
+        if mode == "lost":
+            D = set(st["ddirs"])
+        elif mode == "rand":
+            D = set(st["ddirs"]) | {d for d in opt if rng.random() < 0.5}
+        else:
+            D = set(st["ddirs"]) | set(opt)
+        reach = lambda p: all(x in D for x in _anc(p))
+        files = []
+        for f in paths:
+            alts = st["alt"].get(f, [])
+            effs = st["pend"].get(f, [])
+            c = st["dcont"].get(f, b"") if f in st["vfiles"] else None
+            if mode == "lost":
+                c = alts[0] if alts else c
+            elif mode == "rand" and alts and rng.random() < len(alts) / (len(alts) + 1.0):
+                c = rng.choice(alts)
+            elif c is not None:
+                for i, e in enumerate(effs):
+                    last = i == len(effs) - 1
+                    if mode == "kept" or (mode in ("drop-last", "cut-last") and not last):
+                        c = _apply_eff(c, e)
+                    elif mode == "drop-last":
+                        pass
+                    elif mode == "cut-last":
+                        if e[0] == "write" and len(e[2]) > 1:
+                            c = _apply_eff(c, ("write", e[1], e[2][:rng.randrange(1, len(e[2]))]))
+                    else:
+                        r = rng.random()
+                        if r < 0.34:
+                            pass
+                        elif r < 0.67 or e[0] == "trunc" or len(e[2]) < 2:
+                            c = _apply_eff(c, e)
+                        else:
+                            c = _apply_eff(c, ("write", e[1], e[2][:rng.randrange(1, len(e[2]))]))
+            if c is not None and reach(f):
+                files.append(f"{wpath(f)}@{c.hex()}")
+        ds = ",".join(sorted(wpath(d) for d in D if reach(d)))
+        img = f"dirs={ds};files={','.join(sorted(files))}"
+        if img not in out:
+            out.append(img)
+    return out
+
+
 def real_run(ctx, sets, bufsize, kill_at=None, root=None, snapshot=True):
     """run the sets on the real store under the recorder; returns (recorder, exception or None)"""
     from klongpy.db.sys_fn_kvs import KeyValueStorage
@@ -683,6 +766,7 @@ def real_run(ctx, sets, bufsize, kill_at=None, root=None, snapshot=True):
     err = None
     try:
         for k, v in sets:
+            v = expand(v)
             rec.marker(f"begin:{wpath(k)}:{serialize_obj(v).hex()}")
             store.set(k, v)
             rec.marker("ret")
@@ -696,14 +780,19 @@ def real_run(ctx, sets, bufsize, kill_at=None, root=None, snapshot=True):
     return rec, err
 
 
-def check_images(ctx, drv, ops_prefix, sets_json, bufsize, scratch, cap, label):
+def check_images(ctx, drv, ops_prefix, sets_json, bufsize, scratch, cap, label, big=False):
     """(c): crash images of the model after this prefix, materialised and read by the real store"""
     if len(ctx.oracle_failures) - getattr(ctx, "_c17_base", 0) >= 6 or len(ctx.oracle_failures) >= 50:
         # failing crash points of this sequence are already in hand; do not enumerate the (exploding)
         # image space of the rest of the sequence
         ctx.bump("prefixes-skipped-after-failures")
         return 0
-    if drv is not None:
+    if big:
+        # large writes: the image space is sampled by the Python simulator (same space as the model's `crash`)
+        items = py_sample_images(ops_prefix, ctx.rng, 8)
+        drv = None
+        ctx.bump("prefixes-with-sampled-images-large-values")
+    elif drv is not None:
         n = int(drv.ask("crashcount").split("=")[1])
         if n <= cap:
             idx = list(range(n))
@@ -746,7 +835,8 @@ def check_images(ctx, drv, ops_prefix, sets_json, bufsize, scratch, cap, label):
         materialise(base, img)
         got = read_store(base, KEYS)
         case = dict(kind="crash-point", sets=sets_json, bufsize=bufsize, prefix=len(ops_prefix),
-                    last_op=ops_prefix[-1] if ops_prefix else None, image=imgkey, in_progress=cur)
+                    last_op=_short(ops_prefix[-1], 200) if ops_prefix else None, image=_short(imgkey, 400),
+                    in_progress=cur)
         ctx.count((tuple(ops_prefix), imgkey))
         ctx.bump("images")
         for k in KEYS:
@@ -764,17 +854,20 @@ def check_images(ctx, drv, ops_prefix, sets_json, bufsize, scratch, cap, label):
                 continue
             if k in done:
                 want = canon(deserialize_obj(bytes.fromhex(done[k])))
+                wants = _short(want) if isinstance(want, str) else want
                 if kind == "undef":
-                    ctx.oracle_fail("kvs:crash:completed-key-missing", dict(case, key=k), want, ":undefined",
+                    ctx.oracle_fail("kvs:crash:completed-key-missing", dict(case, key=k), wants, ":undefined",
                                     "a set that had returned is lost by a crash (its directory entry was never synced)")
                 elif raw in HISTORY.get(k, [])[:-1] and raw != done[k]:
-                    ctx.oracle_fail("kvs:crash:completed-key-reads-old-value", dict(case, key=k), want, f"{kind}:{val}",
+                    ctx.oracle_fail("kvs:crash:completed-key-reads-old-value", dict(case, key=k), wants, _short(f"{kind}:{val}"),
                                     "a set that had returned is undone by a crash: the store reads the PREVIOUS value "
                                     "(the directory-entry update that installs the new file was never synced)")
                 elif kind == "raises" or val != want:
-                    ctx.oracle_fail("kvs:crash:completed-key-corrupt", dict(case, key=k), want,
-                                    f"{kind}:{val} raw={raw[:80]}",
-                                    "a set that had returned reads back wrong after a crash (data not synced)")
+                    ctx.oracle_fail("kvs:crash:completed-key-corrupt", dict(case, key=k), wants,
+                                    f"{_short(f'{kind}:{val}')} raw={raw[:80]} ({len(raw) // 2} bytes)",
+                                    "a completed key reads back wrong on a crash image (its data was not synced, or "
+                                    "the set in progress wrote to this key's file)"
+                                    + (f"; set in progress: {cur!r}" if cur else ""))
             else:
                 if kind != "undef":
                     ctx.oracle_fail("kvs:crash:other-key-fails", dict(case, key=k), ":undefined", f"{kind}:{val}",
@@ -791,6 +884,8 @@ def run_sequence(ctx, drv, sets, bufsize, sk, flag, cap, label="seq"):
     os.makedirs(root)
     sets_json = [[k, v] for k, v in sets]
     ctx._c17_base = len(ctx.oracle_failures)
+    big = any(len(serialize_obj(expand(v))) > 3000 for _, v in sets)
+    shorten = lambda l: [_short(o, 200) for o in l]
     try:
         rec, err = real_run(ctx, sets, bufsize, root=root)
         case0 = dict(kind="set-sequence", sets=sets_json, bufsize=bufsize)
@@ -801,14 +896,14 @@ def run_sequence(ctx, drv, sets, bufsize, sk, flag, cap, label="seq"):
         ops = rec.ops
         if drv is None:
             for j in range(len(ops) + 1):
-                check_images(ctx, None, ops[:j], sets_json, bufsize, top, cap, label)
-            return dict(ops=ops, sets=sets, buf=eff_buf)
+                check_images(ctx, None, ops[:j], sets_json, bufsize, top, cap, label, big=big)
+            return dict(ops=ops, sets=sets, buf=eff_buf, big=big)
         drv.ask("new variant=strict")
-        check_images(ctx, drv, [], sets_json, bufsize, top, cap, label)      # the empty store
+        check_images(ctx, drv, [], sets_json, bufsize, top, cap, label, big=big)      # the empty store
         pos = 0
         wf = True
         for si, (k, v) in enumerate(sets):
-            val = serialize_obj(v).hex()
+            val = serialize_obj(expand(v)).hex()
             n = ops.index("ret", pos) + 1 if "ret" in ops[pos:] else len(ops)
             rops = ops[pos:n]
             if sk is None:
@@ -818,26 +913,34 @@ def run_sequence(ctx, drv, sets, bufsize, sk, flag, cap, label="seq"):
                 mops = m[4:].split(";") if m.startswith("ops=") else [m]
             if mops != rops:
                 ctx.mismatch("Klong.C17.setOps(skeleton) vs recorded system-call trace of KeyValueStorage.set",
-                             dict(case0, set_index=si), mops, rops)
+                             dict(case0, set_index=si), shorten(mops), shorten(rops))
             for j, o in enumerate(rops):
                 r = drv.ask("op " + o)
                 if not r.startswith("ok "):
-                    ctx.mismatch("recorded operation outside the model", dict(case0, op=o), "an operation of the model", o)
-                    return dict(ops=ops, sets=sets, buf=eff_buf)
+                    ctx.mismatch("recorded operation outside the model", dict(case0, op=_short(o, 200)),
+                                 "an operation of the model", _short(o, 200))
+                    return dict(ops=ops, sets=sets, buf=eff_buf, big=big)
                 f = fields(r)
                 wf = wf and f["good"] == "1"
                 ctx.bump("wf-ops" if f["good"] == "1" else "non-wf-ops")
                 # volatile view of the model vs the real directory after this call
                 snap = rec.snaps[pos + j]
                 if (f["vdirs"], f["vfiles"]) != snap:
-                    ctx.mismatch("Klong.C17.Fs.step volatile view vs real directory", dict(case0, prefix=pos + j + 1, op=o),
-                                 (f["vdirs"], f["vfiles"]), snap)
-                check_images(ctx, drv, ops[:pos + j + 1], sets_json, bufsize, top, cap, label)
+                    ctx.mismatch("Klong.C17.Fs.step volatile view vs real directory",
+                                 dict(case0, prefix=pos + j + 1, op=_short(o, 200)),
+                                 shorten([f["vdirs"], f["vfiles"]]), shorten(snap))
+                check_images(ctx, drv, ops[:pos + j + 1], sets_json, bufsize, top, cap, label, big=big)
             pos = n
         ctx.bump("sequences-wf" if wf else "sequences-not-wf")
+        if big:
+            ctx.bump("sequences-with-large-values")
+            if not wf:
+                # large traces are not sent to the kernel; the compiled model's WF verdict is reported as a broken tie
+                ctx.mismatch("Klong.C17.WF (compiled model) of the recorded trace of a large-value sequence", case0,
+                             "WF", "not WF")
         if len(val) // 2 > eff_buf:
             ctx.bump("value-larger-than-buffer")
-        return dict(ops=ops, sets=sets, buf=eff_buf, wf=wf)
+        return dict(ops=ops, sets=sets, buf=eff_buf, wf=wf, big=big)
     finally:
         shutil.rmtree(top, ignore_errors=True)
 
@@ -886,7 +989,7 @@ def kernel_obligations(ctx, runs, sk, flag):
     lines.append(f"example : ValidKeys [{', '.join(lpath(k) for k in allkeys)}] := by decide")
     for i, r in enumerate(runs):
         lops = [lean_op(o) for o in r["ops"]]
-        sets = "[" + ", ".join(f"({lpath(k)}, {lean_bytes(serialize_obj(v).hex())})" for k, v in r["sets"]) + "]"
+        sets = "[" + ", ".join(f"({lpath(k)}, {lean_bytes(serialize_obj(expand(v)).hex())})" for k, v in r["sets"]) + "]"
         model = f"traceOf .strict {skl} {fl} {r['buf']} init {sets}" if sk is not None else None
         if None in lops:
             ctx.obligation(f"run{i}: recorded trace is expressible in the model", False,
@@ -982,6 +1085,77 @@ def kill_runs(ctx, drv, sets, bufsize, label):
 
 # --------------------------------------------------------------------------- entry
 
+def check_keypaths(ctx):
+    """key -> file correspondence.  The model identifies a key with its own relative path, so distinct keys are
+    distinct files inside the root.  A key the store refuses (helpers.key_to_file_path raises) is not a key: for
+    those, set AND get must both refuse and nothing may be written.  For accepted keys the real mapping
+    (key_to_file_path joined to the root as FileCache does; pure, no file system) must stay inside the root and
+    keep distinct keys apart."""
+    from klongpy.db.helpers import key_to_file_path
+    from klongpy.db.sys_fn_kvs import KeyValueStorage
+    root = "/verif-store-root"
+    where = {}
+    refused = []
+    for k in KEYS + LOOKALIKES:
+        ctx.count(("keypath", k))
+        try:
+            rel = key_to_file_path(k)
+        except Exception:                              # noqa: the store refuses this key
+            refused.append(k)
+            continue
+        p = os.path.normpath(os.path.join(root, rel))
+        if not p.startswith(root + os.sep):
+            ctx.oracle_fail("kvs:keypath:escapes-root", dict(kind="key-path", key=k), "a file inside the store root", p,
+                            "the key resolves outside the store's root directory")
+            continue
+        where.setdefault(p, []).append(k)
+    for p, ks in sorted(where.items()):
+        for i in range(len(ks)):
+            for j in range(i + 1, len(ks)):
+                a, b = ks[i], ks[j]
+                both = a + b
+                cls = ("backslash" if "\\" in both else "leading-slash" if a.startswith("/") or b.startswith("/")
+                       else "doubled-slash" if "//" in both else "dot-or-trailing-slash")
+                ctx.oracle_fail(f"kvs:keypath:alias-{cls}", dict(kind="key-path", keys=[a, b]),
+                                "distinct keys live in distinct files", f"both map to {os.path.relpath(p, root)}",
+                                "a set of one key opens (truncates) the other key's file: a crash during it harms a key "
+                                "that was not being written")
+    # refused keys: set and get both refuse, no system call is made, the directory stays empty.  (Safe: the
+    # mapping has just refused the key, and set/get consult it before touching the file system; the recorder
+    # would show any call, inside or outside the root.)
+    if refused:
+        top = ctx.mkdtemp()
+        root2 = os.path.join(top, "store")
+        os.makedirs(root2)
+        rec = Recorder(root2, None, snapshot=False)
+        rec.install()
+        store = KeyValueStorage(root2)
+        try:
+            for k in refused:
+                out = {}
+                for name, call in (("set", lambda: store.set(k, 1)), ("get", lambda: store.get(k))):
+                    try:
+                        call()
+                        out[name] = "accepted"
+                    except Exception as e:              # noqa
+                        out[name] = "refused:" + type(e).__name__
+                case = dict(kind="refused-key", key=k)
+                if out["set"] == "accepted" or out["get"] == "accepted":
+                    ctx.oracle_fail("kvs:keypath:refusal-not-uniform", case, "set and get both refuse the key", out,
+                                    "key_to_file_path refuses the key but the store accepts it in set or get")
+                if rec.ops or listing(root2) != ("", ""):
+                    ctx.oracle_fail("kvs:keypath:refused-key-written", case, "no file-system call, empty store",
+                                    dict(ops=rec.ops[:5], listing=listing(root2)))
+                    break
+                ctx.bump("refused-keys-checked")
+        finally:
+            store.cache.executor.shutdown(wait=True)
+            rec.uninstall()
+            shutil.rmtree(top, ignore_errors=True)
+    ctx.extra["refused_keys"] = refused
+    ctx.bump("keypaths-checked", len(KEYS + LOOKALIKES))
+
+
 def gen_sets(rng, n, keys):
     return [(rng.choice(keys), gen_value(rng)) for _ in range(n)]
 
@@ -1018,6 +1192,7 @@ def setup(ctx):
 def run(ctx):
     quick = ctx.tier == "quick"
     sk, flag = setup(ctx)
+    check_keypaths(ctx)
     drv = Driver("c17") if getattr(ctx, "driver_ok", True) else None
     model_sk = sk
     cap = 150 if quick else 1500
@@ -1031,17 +1206,26 @@ def run(ctx):
                 plans.append(([(k, v) for k, v in c["sets"]], c.get("bufsize")))
         nseq = 10 if quick else 40
         for s in range(nseq):
-            keys = ctx.rng.choice([KEYS, KEYS[:3], KEYS[3:], ["a", "q/r/a", "q/r/b"]])
+            keys = ctx.rng.choice([KEYS, KEYS[:3], KEYS[3:8], ["a", "q/r/a", "q/r/b"], ["logs/app", "logs\\app", "a"]])
             n = ctx.rng.randrange(2, 6 if quick else 9)
             plans.append((gen_sets(ctx.rng, n, keys), 16 if s % 3 == 2 else None))
+        # values around io-buffer / 64 KiB boundaries (crash images sampled, see py_sample_images)
+        for s in range(3 if quick else 12):
+            keys = ctx.rng.choice([["a", "p/a"], ["b", "q/r/a", "a"]])
+            sets = gen_sets(ctx.rng, ctx.rng.randrange(1, 3), keys)
+            sets.insert(ctx.rng.randrange(len(sets) + 1), (ctx.rng.choice(keys), gen_big_value(ctx.rng)))
+            if s % 2:
+                sets.append((ctx.rng.choice(keys), gen_big_value(ctx.rng)))
+            plans.append((sets, None))
         for sets, bufsize in plans:
             r = run_sequence(ctx, drv, sets, bufsize, model_sk, bool(flag), cap)
             if r is not None:
                 runs.append(r)
                 if len(ctx.samples) < 4:
                     ctx.sample(dict(sets=[[k, v] for k, v in sets], bufsize=bufsize, trace=r["ops"][:12]))
-        if runs:
-            kernel_obligations(ctx, runs if quick else runs[:16], sk, bool(flag))
+        small = [r for r in runs if not r.get("big")]
+        if small:
+            kernel_obligations(ctx, small if quick else small[:16], sk, bool(flag))
         if not quick:
             for i in range(4):
                 keys = ctx.rng.choice([KEYS, ["a", "q/r/a", "q/r/b", "p/a"]])
@@ -1061,7 +1245,7 @@ def replay(ctx, case):
             kill_runs(ctx, drv, sets, c.get("bufsize"), "replay")
         else:
             r = run_sequence(ctx, drv, sets, c.get("bufsize"), sk, bool(flag), 100000, "replay")
-            if r is not None:
+            if r is not None and not r.get("big"):
                 kernel_obligations(ctx, [r], sk, bool(flag))
     finally:
         if drv:
